@@ -105,4 +105,39 @@ def bytesOf : Nat → Nat → List Nat
 def fmtWhileHandling : List Nat :=
   [37, 119, 32, 40, 119, 104, 105, 108, 101, 32, 104, 97, 110, 100, 108, 105, 110, 103, 58, 32, 37, 119, 41]
 
+/-- An error-PROPAGATION site (a call that builds an error from error values) keeps every error
+it is given: `kind` 0 = `cerrors.Errorf` (xerrors): the site is a `goodSite` and every
+error-valued argument sits on a `%w` directive; 1 = `fmt.Errorf` (wraps every `%w` operand): every
+error-valued argument sits on a `%w`; anything else (text made from an error with `New`, a
+non-constant format) flattens. -/
+def propSiteOk (kind : Nat) (fmt : List Nat) (argc : Nat) (errArgs : List Nat) : Bool :=
+  match parsePercentW fmt with
+  | pw =>
+    if kind = 0 then
+      goodSiteOf pw (errorfIdxOf (hasSuffix fmt sufW) (hasSuffix fmt sufS || hasSuffix fmt sufV) pw argc) argc &&
+        errArgs.all fun i => pw.ws.contains i
+    else if kind = 1 then !pw.exotic && errArgs.all fun i => pw.ws.contains i
+    else false
+
+/-- formats of the v1 nack route, clean tree (bytes): the three `…: %w` wrappers between the nack
+handler's error and the classifier. -/
+def fmtNacking : List Nat :=      -- "error while nacking message: %w"   (DestinationAckerNode.handleAck)
+  [101, 114, 114, 111, 114, 32, 119, 104, 105, 108, 101, 32, 110, 97, 99, 107, 105, 110, 103, 32, 109, 101, 115,
+   115, 97, 103, 101, 58, 32, 37, 119]
+def fmtAcking : List Nat :=       -- "error while acking message: %w"
+  [101, 114, 114, 111, 114, 32, 119, 104, 105, 108, 101, 32, 97, 99, 107, 105, 110, 103, 32, 109, 101, 115, 115,
+   97, 103, 101, 58, 32, 37, 119]
+def fmtNodeStopped : List Nat :=  -- "node %s stopped with error: %w"    (lifecycle.Service.runPipeline)
+  [110, 111, 100, 101, 32, 37, 115, 32, 115, 116, 111, 112, 112, 101, 100, 32, 119, 105, 116, 104, 32, 101, 114,
+   114, 111, 114, 58, 32, 37, 119]
+
+/-- from the error a nack handler chain returns to what `lifecycle.Service` classifies:
+`Join(handlerErr, nil)` (Message.RegisterStatusHandler) → handleAck's wrap → runPipeline's wrap. -/
+def nackRouteLayers : List Layer :=
+  [.errorf fmtNodeStopped [.other] [], .errorf fmtNacking [] [], .join [] [none]]
+
+/-- the ack route: the ack handler is registered first, so its error is joined twice. -/
+def ackRouteLayers : List Layer :=
+  [.errorf fmtNodeStopped [.other] [], .errorf fmtAcking [] [], .join [none] [], .join [] [none]]
+
 end Conduit.Errs
